@@ -7,7 +7,7 @@ From CGV Require Import Base.PyBase Base.PyVal Base.NxGraph Resolve.Bonding Reso
      Resolve.GraphOps Hydro.SquashDefs Hydro.HydroDefs.
 From CGV Require Hydro.Hydrogens Hydro.Squash.
 From CGV Require Import Compose.GraphAdj Compose.CutModel Compose.CutPos Compose.CutTables Compose.CutDisc Compose.CutSkeleton Compose.CutWf
-     Compose.CutHydrogens Compose.ComposeFlat Compose.CutSpecCheck Compose.RebuildWf Compose.CutSorted Compose.CutRunCheck Compose.CutRunSound Compose.SortIdentity Compose.LayeredStep.
+     Compose.CutHydrogens Compose.ComposeFlat Compose.CutSpecCheck Compose.RebuildWf Compose.CutSorted Compose.CutRunCheck Compose.CutRunSound Compose.SortIdentity Compose.LayeredStep Compose.Levels.
 Import ListNotations.
 Open Scope Z_scope.
 
@@ -77,6 +77,12 @@ Definition C06_compose_flat_returned := compose_flat_returned.
 Definition C12_sort_in_order := sort_in_order.
 Definition C06_skeleton_rebuilt := skeleton_rebuilt.
 
+(** C06, any number of levels: the driver machine (Resolve/Drivers.v) on the end-to-end step (PipelineFull.driver_step) *)
+Definition C06_compose_levels := compose_levels.
+Definition C06_compose_levels_all_atom := compose_levels_all_atom.
+Definition C06_run_coarse_levels := run_coarse_levels.
+Definition C06_coarse_step_any := coarse_step_any.
+
 (** the executable tests of the hypotheses are sound *)
 Theorem C01_wf_cut_test_sound : forall C, wf_cutb C = true -> wf_cut C.
 Proof. exact wf_cutb_sound. Qed.
@@ -100,6 +106,8 @@ Print Assumptions C01_run_fail_zero.
 Print Assumptions C06_layered_base.
 Print Assumptions C06_compose_flat.
 Print Assumptions C06_coarse_step_returned.
+Print Assumptions C06_compose_levels.
+Print Assumptions C06_compose_levels_all_atom.
 Print Assumptions C06_compose_flat_returned.
 Print Assumptions C12_sort_in_order.
 Print Assumptions C01_base_test_sound.
